@@ -63,11 +63,13 @@ func inKeys(m map[string]struct{}, k []byte) bool {
 func tagOf(v uint64) Tag    { return Tag(v >> 56) }
 func payOf(v uint64) uint64 { return v & JSONVALUEMASK }
 
-// nopRun: every entry in [p,q) is a NOP whose skip count lands exactly on q,
-// and q is the end of the tape or a live (non-NOP) entry.
+// nopRun(T,p,q): [p,q) is a deleted zone ending at q: every entry in it is a NOP whose skip count is
+// at least 1 and does not jump past q (single runs N|(q-j) written by one deletion, adjacent runs left
+// by several deletions, and the 1-word filler of a nulled two-word value all have this shape), and q
+// is the end of the tape or a live (non-NOP) entry. Following skips from any position in the zone ends at q.
 func nopRun(T []uint64, p, q int) bool {
 	return 0 <= p && p <= q && q <= len(T) &&
-		forall(p, q, func(j int) bool { return tagOf(T[j]) == TagNop && payOf(T[j]) == uint64(q-j) }) &&
+		forall(p, q, func(j int) bool { return tagOf(T[j]) == TagNop && 1 <= payOf(T[j]) && payOf(T[j]) <= uint64(q-j) }) &&
 		implies(q < len(T), tagOf(T[q]) != TagNop)
 }
 
@@ -463,8 +465,11 @@ func wfExtents(T []uint64) bool {
 //@ func (*Object).NextElementBytes variant anytape
 //@   props C05 C19
 //@   summary
+//@   ghost q int
 //@   requires 0 <= o.off && o.off <= 1<<57 && o.tape.Strings != nil
 //@   assigns o.off, *dst
+//@   ensures[C14,C02] member: implies(nopRun(old(o.tape.Tape), old(o.off), q) && q < len(o.tape.Tape) && tagOf(o.tape.Tape[q]) == TagString && result2 == nil, q+2 < len(o.tape.Tape) && dst.t == tagOf(o.tape.Tape[q+2]) && dst.cur == payOf(o.tape.Tape[q+2]) && dst.off == q+3 && result1 == TagToType[dst.t] && o.off == q+3+stepAddNext(dst.t, dst.cur, q+3) && len(dst.tape.Tape) == o.off && len(name) == int(o.tape.Tape[q+1]))
+//@   ensures[C14,C02] endobj: implies(nopRun(old(o.tape.Tape), old(o.off), q) && (q == len(o.tape.Tape) || tagOf(o.tape.Tape[q]) == TagObjectEnd), result2 == nil && result1 == TypeNone)
 //@   ensures progress: implies(result2 == nil && result1 != TypeNone, o.off > old(o.off))
 //@   ensures inv: 0 <= o.off && o.off <= 1<<57 && len(o.tape.Tape) == len(old(o.tape.Tape))
 //@   ensures dstok: implies(result2 == nil && result1 != TypeNone, iterOK(dst) && dst.tape.Strings != nil)
